@@ -1,0 +1,1304 @@
+// -*- mode: rust; -*-
+//
+// Verification hooks (only compiled with `--cfg curve25519_dalek_verif`).
+//
+// This module adds NO new semantics.  Every function is a thin wrapper that
+// forwards to an existing `pub(crate)` (or otherwise externally unreachable)
+// item of this crate, converting to/from plain arrays, slices and existing
+// public types so that an external differential-testing driver can call the
+// real internals.  With the cfg off, this file is not part of the crate.
+//
+// Conventions
+// -----------
+// * A field element is passed as its raw limb array `FeLimbs`
+//   (`[u64; 5]` for the 64-bit serial and fiat backends, `[u32; 10]` for the
+//   32-bit ones; for fiat this is the array inside
+//   `fiat_25519_tight_field_element`).  `fe_from_limbs`/`fe_limbs` are the
+//   identity on the representation: `FieldElement::from_limbs(l)` and `.0`.
+// * An unpacked scalar is passed as `ScLimbs` (`[u64; 5]` / `[u32; 9]`),
+//   a wide product as `ScWide` (`[u128; 9]` / `[u64; 17]`).
+// * Functions that need a SIMD instruction set return `None` when the CPU
+//   lacks it (cpufeatures run-time check); the SIMD code itself is called
+//   from inside a `#[target_feature(enable = ...)] unsafe fn`.
+//
+// Private items that can NOT be hooked from a sibling module (their
+// visibility was deliberately left untouched):
+//   * `FieldElement51::reduce` / `FieldElement2625::reduce` (serial u64/u32,
+//     fiat u64): private `fn reduce` (the weak reduction).  It is only
+//     reachable indirectly through `sub`/`negate`/`mul`/`pow2k`.
+//   * `FieldElement2625::square_inner` (serial u32): private.
+//   * `FieldElement::pow22501`, `FieldElement::pow_p58` (field.rs): private;
+//     reachable only indirectly through `invert` / `sqrt_ratio_i`.
+//   * `Scalar52::square_internal` / `Scalar29::square_internal`: private;
+//     reachable only indirectly through `square` / `montgomery_square`.
+//   * `UnpackedScalar::pack` (scalar.rs): private; it is exactly
+//     `Scalar { bytes: self.as_bytes() }`, and `as_bytes` is hooked.
+//   * `Scalar::reduce`, `Scalar::is_canonical` (scalar.rs): private;
+//     reachable through `from_bytes_mod_order` / `from_canonical_bytes`.
+//   * `CompressedEdwardsY::decompress::{step_1, step_2}`,
+//     `CompressedRistretto::decompress::{step_1, step_2}`: `pub(super)` in a
+//     private inner module.
+//   * `RistrettoPoint::coset4` (private); the hook `ristretto_add_torsion`
+//     performs the same `self.0 + EIGHT_TORSION[2j]` addition.
+//   * `montgomery::differential_add_and_double`, `montgomery::ProjectivePoint`
+//     (private to montgomery.rs).
+//   * `FieldElement2625x4::reduce64`, `unpack_pair`, `repack_pair` (avx2) and
+//     `madd52lo`/`madd52hi`, `shuffle_lanes`, `blend_lanes` (ifma): private.
+
+use cfg_if::cfg_if;
+
+use subtle::Choice;
+use subtle::ConditionallyNegatable;
+use subtle::ConditionallySelectable;
+use subtle::ConstantTimeEq;
+
+use crate::backend;
+use crate::backend::serial::curve_models::AffineNielsPoint;
+use crate::backend::serial::curve_models::ProjectiveNielsPoint;
+use crate::constants;
+use crate::edwards::EdwardsPoint;
+use crate::field::FieldElement;
+use crate::montgomery::MontgomeryPoint;
+use crate::ristretto::RistrettoPoint;
+use crate::scalar::Scalar;
+use crate::traits::Identity;
+use crate::traits::ValidityCheck;
+use crate::window::LookupTable;
+
+#[cfg(feature = "alloc")]
+use alloc::vec::Vec;
+
+// ------------------------------------------------------------------------
+// Build description
+// ------------------------------------------------------------------------
+
+cfg_if! {
+    if #[cfg(curve25519_dalek_backend = "fiat")] {
+        /// Which backend cfg this crate was compiled with.
+        pub const BACKEND: &str = "fiat";
+    } else if #[cfg(all(curve25519_dalek_backend = "unstable_avx512", nightly))] {
+        pub const BACKEND: &str = "avx512";
+    } else if #[cfg(curve25519_dalek_backend = "simd")] {
+        pub const BACKEND: &str = "simd";
+    } else {
+        pub const BACKEND: &str = "serial";
+    }
+}
+
+cfg_if! {
+    if #[cfg(curve25519_dalek_bits = "64")] {
+        pub const BITS: u32 = 64;
+        /// Limb type of a field element.
+        pub type FeLimb = u64;
+        pub const FE_NLIMBS: usize = 5;
+        /// Nominal limb width in bits (radix 2^51).
+        pub const FE_RADIX_BITS: u32 = 51;
+        /// Limb type of an unpacked scalar.
+        pub type ScLimb = u64;
+        pub const SC_NLIMBS: usize = 5;
+        pub const SC_RADIX_BITS: u32 = 52;
+        /// Limb type of a wide (unreduced) scalar product.
+        pub type ScWideLimb = u128;
+        pub const SC_NWIDE: usize = 9;
+    } else {
+        pub const BITS: u32 = 32;
+        pub type FeLimb = u32;
+        pub const FE_NLIMBS: usize = 10;
+        /// Nominal limb width in bits (mixed radix 2^25.5; reported as 26).
+        pub const FE_RADIX_BITS: u32 = 26;
+        pub type ScLimb = u32;
+        pub const SC_NLIMBS: usize = 9;
+        pub const SC_RADIX_BITS: u32 = 29;
+        pub type ScWideLimb = u64;
+        pub const SC_NWIDE: usize = 17;
+    }
+}
+
+pub type FeLimbs = [FeLimb; FE_NLIMBS];
+pub type ScLimbs = [ScLimb; SC_NLIMBS];
+pub type ScWide = [ScWideLimb; SC_NWIDE];
+
+pub const HAS_ALLOC: bool = cfg!(feature = "alloc");
+pub const HAS_PRECOMPUTED_TABLES: bool = cfg!(feature = "precomputed-tables");
+pub const HAS_ZEROIZE: bool = cfg!(feature = "zeroize");
+pub const HAS_LEGACY_COMPATIBILITY: bool = cfg!(feature = "legacy_compatibility");
+pub const DEBUG_ASSERTIONS: bool = cfg!(debug_assertions);
+
+cfg_if! {
+    if #[cfg(curve25519_dalek_backend = "fiat")] {
+        #[cfg(curve25519_dalek_bits = "32")]
+        use backend::serial::fiat_u32::scalar::Scalar29 as UnpackedScalar;
+        #[cfg(curve25519_dalek_bits = "64")]
+        use backend::serial::fiat_u64::scalar::Scalar52 as UnpackedScalar;
+    } else if #[cfg(curve25519_dalek_bits = "64")] {
+        use backend::serial::u64::scalar::Scalar52 as UnpackedScalar;
+    } else {
+        use backend::serial::u32::scalar::Scalar29 as UnpackedScalar;
+    }
+}
+
+// ------------------------------------------------------------------------
+// FieldElement <-> raw limbs
+// ------------------------------------------------------------------------
+
+#[inline(always)]
+fn fe(l: &FeLimbs) -> FieldElement {
+    FieldElement::from_limbs(*l)
+}
+
+#[cfg(curve25519_dalek_backend = "fiat")]
+#[inline(always)]
+fn lm(f: &FieldElement) -> FeLimbs {
+    (f.0).0
+}
+
+#[cfg(not(curve25519_dalek_backend = "fiat"))]
+#[inline(always)]
+fn lm(f: &FieldElement) -> FeLimbs {
+    f.0
+}
+
+/// `FieldElement::from_limbs` then read the limbs back (identity).
+pub fn fe_from_limbs_roundtrip(l: &FeLimbs) -> FeLimbs {
+    lm(&fe(l))
+}
+
+/// `FieldElement::from_bytes`.
+pub fn fe_from_bytes(b: &[u8; 32]) -> FeLimbs {
+    lm(&FieldElement::from_bytes(b))
+}
+
+/// `FieldElement::as_bytes`.
+pub fn fe_as_bytes(a: &FeLimbs) -> [u8; 32] {
+    fe(a).as_bytes()
+}
+
+/// `&a + &b`.
+pub fn fe_add(a: &FeLimbs, b: &FeLimbs) -> FeLimbs {
+    lm(&(&fe(a) + &fe(b)))
+}
+
+/// `a += &b`.
+pub fn fe_add_assign(a: &FeLimbs, b: &FeLimbs) -> FeLimbs {
+    let mut x = fe(a);
+    x += &fe(b);
+    lm(&x)
+}
+
+/// `&a - &b`.
+pub fn fe_sub(a: &FeLimbs, b: &FeLimbs) -> FeLimbs {
+    lm(&(&fe(a) - &fe(b)))
+}
+
+/// `a -= &b`.
+pub fn fe_sub_assign(a: &FeLimbs, b: &FeLimbs) -> FeLimbs {
+    let mut x = fe(a);
+    x -= &fe(b);
+    lm(&x)
+}
+
+/// `&a * &b`.
+pub fn fe_mul(a: &FeLimbs, b: &FeLimbs) -> FeLimbs {
+    lm(&(&fe(a) * &fe(b)))
+}
+
+/// `a *= &b`.
+pub fn fe_mul_assign(a: &FeLimbs, b: &FeLimbs) -> FeLimbs {
+    let mut x = fe(a);
+    x *= &fe(b);
+    lm(&x)
+}
+
+/// `-&a`.
+pub fn fe_neg(a: &FeLimbs) -> FeLimbs {
+    lm(&(-&fe(a)))
+}
+
+/// `a.square()`.
+pub fn fe_square(a: &FeLimbs) -> FeLimbs {
+    lm(&fe(a).square())
+}
+
+/// `a.square2()`.
+pub fn fe_square2(a: &FeLimbs) -> FeLimbs {
+    lm(&fe(a).square2())
+}
+
+/// `a.pow2k(k)`; the caller guarantees `k > 0`.
+pub fn fe_pow2k(a: &FeLimbs, k: u32) -> FeLimbs {
+    lm(&fe(a).pow2k(k))
+}
+
+/// `a.invert()`.
+pub fn fe_invert(a: &FeLimbs) -> FeLimbs {
+    lm(&fe(a).invert())
+}
+
+/// `a.invsqrt()`.
+pub fn fe_invsqrt(a: &FeLimbs) -> (Choice, FeLimbs) {
+    let (c, r) = fe(a).invsqrt();
+    (c, lm(&r))
+}
+
+/// `FieldElement::sqrt_ratio_i(&u, &v)`.
+pub fn fe_sqrt_ratio_i(u: &FeLimbs, v: &FeLimbs) -> (Choice, FeLimbs) {
+    let (c, r) = FieldElement::sqrt_ratio_i(&fe(u), &fe(v));
+    (c, lm(&r))
+}
+
+/// `FieldElement::batch_invert(&mut inputs)`.
+///
+/// Up to 64 inputs are converted through a stack buffer so that the only
+/// heap traffic is the library's own scratch vector (matters for the heap
+/// zeroization probe); longer inputs go through a temporary `Vec`.
+#[cfg(feature = "alloc")]
+pub fn fe_batch_invert(inputs: &mut [FeLimbs]) {
+    const STACK: usize = 64;
+    let n = inputs.len();
+    if n <= STACK {
+        let mut buf = [FieldElement::ZERO; STACK];
+        for (b, i) in buf.iter_mut().zip(inputs.iter()) {
+            *b = fe(i);
+        }
+        FieldElement::batch_invert(&mut buf[..n]);
+        for (o, x) in inputs.iter_mut().zip(buf.iter()) {
+            *o = lm(x);
+        }
+    } else {
+        let mut v: Vec<FieldElement> = inputs.iter().map(fe).collect();
+        FieldElement::batch_invert(&mut v);
+        for (o, x) in inputs.iter_mut().zip(v.iter()) {
+            *o = lm(x);
+        }
+    }
+}
+
+/// `a.is_negative()`.
+pub fn fe_is_negative(a: &FeLimbs) -> Choice {
+    fe(a).is_negative()
+}
+
+/// `a.is_zero()`.
+pub fn fe_is_zero(a: &FeLimbs) -> Choice {
+    fe(a).is_zero()
+}
+
+/// `a.ct_eq(&b)`.
+pub fn fe_ct_eq(a: &FeLimbs, b: &FeLimbs) -> Choice {
+    fe(a).ct_eq(&fe(b))
+}
+
+/// `a == b` (`PartialEq`).
+pub fn fe_eq(a: &FeLimbs, b: &FeLimbs) -> bool {
+    fe(a) == fe(b)
+}
+
+/// `FieldElement::conditional_select(&a, &b, c)`.
+pub fn fe_conditional_select(a: &FeLimbs, b: &FeLimbs, c: Choice) -> FeLimbs {
+    lm(&FieldElement::conditional_select(&fe(a), &fe(b), c))
+}
+
+/// `FieldElement::conditional_swap(&mut a, &mut b, c)`.
+pub fn fe_conditional_swap(a: &FeLimbs, b: &FeLimbs, c: Choice) -> (FeLimbs, FeLimbs) {
+    let mut x = fe(a);
+    let mut y = fe(b);
+    FieldElement::conditional_swap(&mut x, &mut y, c);
+    (lm(&x), lm(&y))
+}
+
+/// `a.conditional_assign(&b, c)`.
+pub fn fe_conditional_assign(a: &FeLimbs, b: &FeLimbs, c: Choice) -> FeLimbs {
+    let mut x = fe(a);
+    x.conditional_assign(&fe(b), c);
+    lm(&x)
+}
+
+/// `a.conditional_negate(c)`.
+pub fn fe_conditional_negate(a: &FeLimbs, c: Choice) -> FeLimbs {
+    let mut x = fe(a);
+    x.conditional_negate(c);
+    lm(&x)
+}
+
+/// The named field constants of `constants` / `FieldElement`.
+pub fn fe_constant(name: &str) -> Option<FeLimbs> {
+    Some(lm(&match name {
+        "ZERO" => FieldElement::ZERO,
+        "ONE" => FieldElement::ONE,
+        "MINUS_ONE" => FieldElement::MINUS_ONE,
+        "CONSTANTS_MINUS_ONE" => constants::MINUS_ONE,
+        "EDWARDS_D" => constants::EDWARDS_D,
+        "EDWARDS_D2" => constants::EDWARDS_D2,
+        "ONE_MINUS_EDWARDS_D_SQUARED" => constants::ONE_MINUS_EDWARDS_D_SQUARED,
+        "EDWARDS_D_MINUS_ONE_SQUARED" => constants::EDWARDS_D_MINUS_ONE_SQUARED,
+        "SQRT_AD_MINUS_ONE" => constants::SQRT_AD_MINUS_ONE,
+        "INVSQRT_A_MINUS_D" => constants::INVSQRT_A_MINUS_D,
+        "SQRT_M1" => constants::SQRT_M1,
+        "APLUS2_OVER_FOUR" => constants::APLUS2_OVER_FOUR,
+        "MONTGOMERY_A" => constants::MONTGOMERY_A,
+        "MONTGOMERY_A_NEG" => constants::MONTGOMERY_A_NEG,
+        _ => return None,
+    }))
+}
+
+// ------------------------------------------------------------------------
+// UnpackedScalar (Scalar52 / Scalar29) on raw limbs
+// ------------------------------------------------------------------------
+
+#[inline(always)]
+fn us(l: &ScLimbs) -> UnpackedScalar {
+    UnpackedScalar(*l)
+}
+
+/// `UnpackedScalar::from_bytes`.
+pub fn scl_from_bytes(b: &[u8; 32]) -> ScLimbs {
+    UnpackedScalar::from_bytes(b).0
+}
+
+/// `UnpackedScalar::from_bytes_wide`.
+pub fn scl_from_bytes_wide(b: &[u8; 64]) -> ScLimbs {
+    UnpackedScalar::from_bytes_wide(b).0
+}
+
+/// `UnpackedScalar::as_bytes` (what the private `pack` wraps in a `Scalar`).
+pub fn scl_as_bytes(a: &ScLimbs) -> [u8; 32] {
+    us(a).as_bytes()
+}
+
+/// `Scalar::unpack`.
+pub fn scalar_unpack(s: &Scalar) -> ScLimbs {
+    s.unpack().0
+}
+
+pub fn scl_add(a: &ScLimbs, b: &ScLimbs) -> ScLimbs {
+    UnpackedScalar::add(&us(a), &us(b)).0
+}
+
+pub fn scl_sub(a: &ScLimbs, b: &ScLimbs) -> ScLimbs {
+    UnpackedScalar::sub(&us(a), &us(b)).0
+}
+
+pub fn scl_mul(a: &ScLimbs, b: &ScLimbs) -> ScLimbs {
+    UnpackedScalar::mul(&us(a), &us(b)).0
+}
+
+pub fn scl_square(a: &ScLimbs) -> ScLimbs {
+    us(a).square().0
+}
+
+pub fn scl_mul_internal(a: &ScLimbs, b: &ScLimbs) -> ScWide {
+    UnpackedScalar::mul_internal(&us(a), &us(b))
+}
+
+pub fn scl_montgomery_reduce(w: &ScWide) -> ScLimbs {
+    UnpackedScalar::montgomery_reduce(w).0
+}
+
+pub fn scl_montgomery_mul(a: &ScLimbs, b: &ScLimbs) -> ScLimbs {
+    UnpackedScalar::montgomery_mul(&us(a), &us(b)).0
+}
+
+pub fn scl_montgomery_square(a: &ScLimbs) -> ScLimbs {
+    us(a).montgomery_square().0
+}
+
+pub fn scl_as_montgomery(a: &ScLimbs) -> ScLimbs {
+    us(a).as_montgomery().0
+}
+
+pub fn scl_from_montgomery(a: &ScLimbs) -> ScLimbs {
+    us(a).from_montgomery().0
+}
+
+pub fn scl_montgomery_invert(a: &ScLimbs) -> ScLimbs {
+    us(a).montgomery_invert().0
+}
+
+pub fn scl_invert(a: &ScLimbs) -> ScLimbs {
+    us(a).invert().0
+}
+
+/// The scalar-arithmetic constants `L`, `R`, `RR` (limbs).
+pub fn scl_constant(name: &str) -> Option<ScLimbs> {
+    Some(match name {
+        "L" => constants::L.0,
+        "R" => constants::R.0,
+        "RR" => constants::RR.0,
+        _ => return None,
+    })
+}
+
+/// `constants::LFACTOR`.
+pub fn scl_lfactor() -> ScLimb {
+    constants::LFACTOR
+}
+
+// ------------------------------------------------------------------------
+// Scalar (packed) internals
+// ------------------------------------------------------------------------
+
+/// `Scalar { bytes }` with no reduction and no masking.  The caller keeps
+/// the value below 2^255 wherever the library requires it.
+pub fn scalar_from_raw_bytes(bytes: [u8; 32]) -> Scalar {
+    Scalar { bytes }
+}
+
+/// `s.as_radix_16()`.
+pub fn scalar_as_radix_16(s: &Scalar) -> [i8; 64] {
+    s.as_radix_16()
+}
+
+/// `s.as_radix_2w(w)`.
+#[cfg(any(feature = "alloc", feature = "precomputed-tables"))]
+pub fn scalar_as_radix_2w(s: &Scalar, w: usize) -> [i8; 64] {
+    s.as_radix_2w(w)
+}
+
+/// `Scalar::to_radix_2w_size_hint(w)`.
+#[cfg(feature = "alloc")]
+pub fn scalar_to_radix_2w_size_hint(w: usize) -> usize {
+    Scalar::to_radix_2w_size_hint(w)
+}
+
+/// `s.non_adjacent_form(w)`.
+pub fn scalar_non_adjacent_form(s: &Scalar, w: usize) -> [i8; 256] {
+    s.non_adjacent_form(w)
+}
+
+/// `s.bits_le()` collected into an array.
+pub fn scalar_bits_le(s: &Scalar) -> [bool; 256] {
+    let mut out = [false; 256];
+    for (o, b) in out.iter_mut().zip(s.bits_le()) {
+        *o = b;
+    }
+    out
+}
+
+// ------------------------------------------------------------------------
+// EdwardsPoint internals
+// ------------------------------------------------------------------------
+
+/// `(X, Y, Z, T)` as raw limbs.
+pub fn edwards_coords_limbs(p: &EdwardsPoint) -> [FeLimbs; 4] {
+    [lm(&p.X), lm(&p.Y), lm(&p.Z), lm(&p.T)]
+}
+
+/// `(X, Y, Z, T)` each through `FieldElement::as_bytes`.
+pub fn edwards_coords(p: &EdwardsPoint) -> [[u8; 32]; 4] {
+    [
+        p.X.as_bytes(),
+        p.Y.as_bytes(),
+        p.Z.as_bytes(),
+        p.T.as_bytes(),
+    ]
+}
+
+/// `EdwardsPoint { X, Y, Z, T }` from raw limbs (no validity check).
+pub fn edwards_from_coords_limbs(c: &[FeLimbs; 4]) -> EdwardsPoint {
+    EdwardsPoint {
+        X: fe(&c[0]),
+        Y: fe(&c[1]),
+        Z: fe(&c[2]),
+        T: fe(&c[3]),
+    }
+}
+
+/// `EdwardsPoint { X, Y, Z, T }`, each coordinate from
+/// `FieldElement::from_bytes` (no validity check).
+pub fn edwards_from_coords(c: &[[u8; 32]; 4]) -> EdwardsPoint {
+    EdwardsPoint {
+        X: FieldElement::from_bytes(&c[0]),
+        Y: FieldElement::from_bytes(&c[1]),
+        Z: FieldElement::from_bytes(&c[2]),
+        T: FieldElement::from_bytes(&c[3]),
+    }
+}
+
+/// Affine `(x, y) = (X * Z^-1, Y * Z^-1)` as canonical bytes, using the
+/// crate's own `invert`/`mul`/`as_bytes`.
+pub fn edwards_affine(p: &EdwardsPoint) -> ([u8; 32], [u8; 32]) {
+    let zinv = p.Z.invert();
+    ((&p.X * &zinv).as_bytes(), (&p.Y * &zinv).as_bytes())
+}
+
+/// The inherent `pub(crate) fn double`.
+pub fn edwards_double(p: &EdwardsPoint) -> EdwardsPoint {
+    p.double()
+}
+
+/// `p.mul_by_pow_2(k)`; the caller guarantees `k > 0`.
+pub fn edwards_mul_by_pow_2(p: &EdwardsPoint, k: u32) -> EdwardsPoint {
+    p.mul_by_pow_2(k)
+}
+
+/// `ValidityCheck::is_valid`.
+pub fn edwards_is_valid(p: &EdwardsPoint) -> bool {
+    p.is_valid()
+}
+
+/// `p.as_projective_niels()` added to the identity and converted back.
+pub fn edwards_via_projective_niels(p: &EdwardsPoint) -> EdwardsPoint {
+    (&EdwardsPoint::identity() + &p.as_projective_niels()).as_extended()
+}
+
+/// `p.as_affine_niels()` added to the identity and converted back.
+pub fn edwards_via_affine_niels(p: &EdwardsPoint) -> EdwardsPoint {
+    (&EdwardsPoint::identity() + &p.as_affine_niels()).as_extended()
+}
+
+/// `p.as_projective().as_extended()`.
+pub fn edwards_via_projective(p: &EdwardsPoint) -> EdwardsPoint {
+    p.as_projective().as_extended()
+}
+
+/// `LookupTable::<ProjectiveNielsPoint>::from(p).select(x)`, converted back
+/// to an `EdwardsPoint` by adding it to the identity.  Caller keeps
+/// `-8 <= x <= 8`.
+pub fn lookup_table_select_projective_niels(p: &EdwardsPoint, x: i8) -> EdwardsPoint {
+    let t = LookupTable::<ProjectiveNielsPoint>::from(p);
+    let sel: ProjectiveNielsPoint = t.select(x);
+    (&EdwardsPoint::identity() + &sel).as_extended()
+}
+
+/// `LookupTable::<AffineNielsPoint>::from(p).select(x)`, converted back to
+/// an `EdwardsPoint` by adding it to the identity.
+pub fn lookup_table_select_affine_niels(p: &EdwardsPoint, x: i8) -> EdwardsPoint {
+    let t = LookupTable::<AffineNielsPoint>::from(p);
+    let sel: AffineNielsPoint = t.select(x);
+    (&EdwardsPoint::identity() + &sel).as_extended()
+}
+
+// ------------------------------------------------------------------------
+// Montgomery / Ristretto internals
+// ------------------------------------------------------------------------
+
+/// `montgomery::elligator_encode(&FieldElement::from_bytes(r_0))`.
+pub fn elligator_encode(r_0: &[u8; 32]) -> MontgomeryPoint {
+    crate::montgomery::elligator_encode(&FieldElement::from_bytes(r_0))
+}
+
+/// Same on raw limbs.
+pub fn elligator_encode_limbs(r_0: &FeLimbs) -> MontgomeryPoint {
+    crate::montgomery::elligator_encode(&fe(r_0))
+}
+
+/// `RistrettoPoint::elligator_ristretto_flavor(&FieldElement::from_bytes(r_0))`.
+pub fn elligator_ristretto_flavor(r_0: &[u8; 32]) -> RistrettoPoint {
+    RistrettoPoint::elligator_ristretto_flavor(&FieldElement::from_bytes(r_0))
+}
+
+/// Same on raw limbs.
+pub fn elligator_ristretto_flavor_limbs(r_0: &FeLimbs) -> RistrettoPoint {
+    RistrettoPoint::elligator_ristretto_flavor(&fe(r_0))
+}
+
+/// The Edwards representative inside a `RistrettoPoint`.
+pub fn ristretto_inner(p: &RistrettoPoint) -> EdwardsPoint {
+    p.0
+}
+
+/// Wrap an `EdwardsPoint` (caller keeps it in the even subgroup `2E`).
+pub fn ristretto_from_inner(p: &EdwardsPoint) -> RistrettoPoint {
+    RistrettoPoint(*p)
+}
+
+/// `RistrettoPoint(p.0 + EIGHT_TORSION[2 * j])`, `j` in `0..4`: the same
+/// group element with another coset representative (what the private
+/// `coset4` enumerates).
+pub fn ristretto_add_torsion(p: &RistrettoPoint, j: usize) -> RistrettoPoint {
+    RistrettoPoint(p.0 + constants::EIGHT_TORSION[2 * (j & 3)])
+}
+
+// ------------------------------------------------------------------------
+// Scalar multiplication: the serial copies, called directly
+// ------------------------------------------------------------------------
+
+pub mod serial {
+    use super::*;
+    use backend::serial::scalar_mul;
+
+    /// `backend::serial::scalar_mul::variable_base::mul`.
+    pub fn variable_base_mul(point: &EdwardsPoint, scalar: &Scalar) -> EdwardsPoint {
+        scalar_mul::variable_base::mul(point, scalar)
+    }
+
+    /// `backend::serial::scalar_mul::vartime_double_base::mul`.
+    pub fn vartime_double_base_mul(a: &Scalar, A: &EdwardsPoint, b: &Scalar) -> EdwardsPoint {
+        scalar_mul::vartime_double_base::mul(a, A, b)
+    }
+
+    /// `Straus::multiscalar_mul` (constant time).
+    #[cfg(feature = "alloc")]
+    pub fn straus_multiscalar_mul(scalars: &[Scalar], points: &[EdwardsPoint]) -> EdwardsPoint {
+        use crate::traits::MultiscalarMul;
+        scalar_mul::straus::Straus::multiscalar_mul(scalars.iter(), points.iter())
+    }
+
+    /// `Straus::optional_multiscalar_mul` (variable time).
+    #[cfg(feature = "alloc")]
+    pub fn straus_optional_multiscalar_mul(
+        scalars: &[Scalar],
+        points: &[Option<EdwardsPoint>],
+    ) -> Option<EdwardsPoint> {
+        use crate::traits::VartimeMultiscalarMul;
+        scalar_mul::straus::Straus::optional_multiscalar_mul(scalars.iter(), points.iter().copied())
+    }
+
+    /// `Pippenger::optional_multiscalar_mul`.
+    #[cfg(feature = "alloc")]
+    pub fn pippenger_optional_multiscalar_mul(
+        scalars: &[Scalar],
+        points: &[Option<EdwardsPoint>],
+    ) -> Option<EdwardsPoint> {
+        use crate::traits::VartimeMultiscalarMul;
+        scalar_mul::pippenger::Pippenger::optional_multiscalar_mul(
+            scalars.iter(),
+            points.iter().copied(),
+        )
+    }
+
+    /// `VartimePrecomputedStraus::new(static_points)
+    ///     .optional_mixed_multiscalar_mul(static_scalars, dynamic_scalars, dynamic_points)`.
+    #[cfg(feature = "alloc")]
+    pub fn precomputed_straus_optional_mixed_multiscalar_mul(
+        static_points: &[EdwardsPoint],
+        static_scalars: &[Scalar],
+        dynamic_scalars: &[Scalar],
+        dynamic_points: &[Option<EdwardsPoint>],
+    ) -> Option<EdwardsPoint> {
+        use crate::traits::VartimePrecomputedMultiscalarMul;
+        let pre = scalar_mul::precomputed_straus::VartimePrecomputedStraus::new(static_points.iter());
+        pre.optional_mixed_multiscalar_mul(
+            static_scalars.iter(),
+            dynamic_scalars.iter(),
+            dynamic_points.iter().copied(),
+        )
+    }
+}
+
+// ------------------------------------------------------------------------
+// Scalar multiplication + vector field arithmetic: the AVX2 copies
+// ------------------------------------------------------------------------
+
+/// Generates the five scalar-multiplication hooks for one
+/// `unsafe_target_feature_specialize`d copy.
+#[cfg(curve25519_dalek_backend = "simd")]
+macro_rules! impl_vector_scalar_mul_hooks {
+    ($spec:ident, $features:literal) => {
+        #[target_feature(enable = $features)]
+        unsafe fn variable_base_mul_tf(point: &EdwardsPoint, scalar: &Scalar) -> EdwardsPoint {
+            scalar_mul::variable_base::$spec::mul(point, scalar)
+        }
+
+        /// `backend::vector::scalar_mul::variable_base::<spec>::mul`.
+        pub fn variable_base_mul(point: &EdwardsPoint, scalar: &Scalar) -> Option<EdwardsPoint> {
+            if !available() {
+                return None;
+            }
+            Some(unsafe { variable_base_mul_tf(point, scalar) })
+        }
+
+        #[target_feature(enable = $features)]
+        unsafe fn vartime_double_base_mul_tf(
+            a: &Scalar,
+            A: &EdwardsPoint,
+            b: &Scalar,
+        ) -> EdwardsPoint {
+            scalar_mul::vartime_double_base::$spec::mul(a, A, b)
+        }
+
+        /// `backend::vector::scalar_mul::vartime_double_base::<spec>::mul`.
+        pub fn vartime_double_base_mul(
+            a: &Scalar,
+            A: &EdwardsPoint,
+            b: &Scalar,
+        ) -> Option<EdwardsPoint> {
+            if !available() {
+                return None;
+            }
+            Some(unsafe { vartime_double_base_mul_tf(a, A, b) })
+        }
+
+        #[cfg(feature = "alloc")]
+        #[target_feature(enable = $features)]
+        unsafe fn straus_multiscalar_mul_tf(
+            scalars: &[Scalar],
+            points: &[EdwardsPoint],
+        ) -> EdwardsPoint {
+            use crate::traits::MultiscalarMul;
+            scalar_mul::straus::$spec::Straus::multiscalar_mul(scalars.iter(), points.iter())
+        }
+
+        /// `Straus::multiscalar_mul` of this copy (constant time).
+        #[cfg(feature = "alloc")]
+        pub fn straus_multiscalar_mul(
+            scalars: &[Scalar],
+            points: &[EdwardsPoint],
+        ) -> Option<EdwardsPoint> {
+            if !available() {
+                return None;
+            }
+            Some(unsafe { straus_multiscalar_mul_tf(scalars, points) })
+        }
+
+        #[cfg(feature = "alloc")]
+        #[target_feature(enable = $features)]
+        unsafe fn straus_optional_multiscalar_mul_tf(
+            scalars: &[Scalar],
+            points: &[Option<EdwardsPoint>],
+        ) -> Option<EdwardsPoint> {
+            use crate::traits::VartimeMultiscalarMul;
+            scalar_mul::straus::$spec::Straus::optional_multiscalar_mul(
+                scalars.iter(),
+                points.iter().copied(),
+            )
+        }
+
+        /// `Straus::optional_multiscalar_mul` of this copy (variable time).
+        /// Outer `None`: CPU lacks the instruction set.
+        #[cfg(feature = "alloc")]
+        pub fn straus_optional_multiscalar_mul(
+            scalars: &[Scalar],
+            points: &[Option<EdwardsPoint>],
+        ) -> Option<Option<EdwardsPoint>> {
+            if !available() {
+                return None;
+            }
+            Some(unsafe { straus_optional_multiscalar_mul_tf(scalars, points) })
+        }
+
+        #[cfg(feature = "alloc")]
+        #[target_feature(enable = $features)]
+        unsafe fn pippenger_optional_multiscalar_mul_tf(
+            scalars: &[Scalar],
+            points: &[Option<EdwardsPoint>],
+        ) -> Option<EdwardsPoint> {
+            use crate::traits::VartimeMultiscalarMul;
+            scalar_mul::pippenger::$spec::Pippenger::optional_multiscalar_mul(
+                scalars.iter(),
+                points.iter().copied(),
+            )
+        }
+
+        /// `Pippenger::optional_multiscalar_mul` of this copy.
+        #[cfg(feature = "alloc")]
+        pub fn pippenger_optional_multiscalar_mul(
+            scalars: &[Scalar],
+            points: &[Option<EdwardsPoint>],
+        ) -> Option<Option<EdwardsPoint>> {
+            if !available() {
+                return None;
+            }
+            Some(unsafe { pippenger_optional_multiscalar_mul_tf(scalars, points) })
+        }
+
+        #[cfg(feature = "alloc")]
+        #[target_feature(enable = $features)]
+        unsafe fn precomputed_straus_optional_mixed_multiscalar_mul_tf(
+            static_points: &[EdwardsPoint],
+            static_scalars: &[Scalar],
+            dynamic_scalars: &[Scalar],
+            dynamic_points: &[Option<EdwardsPoint>],
+        ) -> Option<EdwardsPoint> {
+            use crate::traits::VartimePrecomputedMultiscalarMul;
+            let pre = scalar_mul::precomputed_straus::$spec::VartimePrecomputedStraus::new(
+                static_points.iter(),
+            );
+            pre.optional_mixed_multiscalar_mul(
+                static_scalars.iter(),
+                dynamic_scalars.iter(),
+                dynamic_points.iter().copied(),
+            )
+        }
+
+        /// `VartimePrecomputedStraus::new(..).optional_mixed_multiscalar_mul(..)`
+        /// of this copy.
+        #[cfg(feature = "alloc")]
+        pub fn precomputed_straus_optional_mixed_multiscalar_mul(
+            static_points: &[EdwardsPoint],
+            static_scalars: &[Scalar],
+            dynamic_scalars: &[Scalar],
+            dynamic_points: &[Option<EdwardsPoint>],
+        ) -> Option<Option<EdwardsPoint>> {
+            if !available() {
+                return None;
+            }
+            Some(unsafe {
+                precomputed_straus_optional_mixed_multiscalar_mul_tf(
+                    static_points,
+                    static_scalars,
+                    dynamic_scalars,
+                    dynamic_points,
+                )
+            })
+        }
+    };
+}
+
+/// Four field-element lanes (A, B, C, D) as raw `FieldElement51` limbs.
+#[cfg(curve25519_dalek_backend = "simd")]
+pub type Lanes4 = [[u64; 5]; 4];
+
+#[cfg(curve25519_dalek_backend = "simd")]
+pub mod avx2 {
+    use super::*;
+    use backend::serial::u64::field::FieldElement51;
+    use backend::vector::avx2::field::{FieldElement2625x4, Lanes, Shuffle};
+    use backend::vector::scalar_mul;
+
+    /// Run-time check (same cpufeatures test as `backend::get_selected_backend`).
+    pub fn available() -> bool {
+        cpufeatures::new!(verif_cpuid_avx2, "avx2");
+        verif_cpuid_avx2::init().get()
+    }
+
+    impl_vector_scalar_mul_hooks!(spec_avx2, "avx2");
+
+    #[inline(always)]
+    unsafe fn load(l: &Lanes4) -> FieldElement2625x4 {
+        FieldElement2625x4::new(
+            &FieldElement51::from_limbs(l[0]),
+            &FieldElement51::from_limbs(l[1]),
+            &FieldElement51::from_limbs(l[2]),
+            &FieldElement51::from_limbs(l[3]),
+        )
+    }
+
+    #[inline(always)]
+    unsafe fn store(v: &FieldElement2625x4) -> Lanes4 {
+        let s = v.split();
+        [s[0].0, s[1].0, s[2].0, s[3].0]
+    }
+
+    fn shuffle_of(ctl: u8) -> Option<Shuffle> {
+        Some(match ctl {
+            0 => Shuffle::AAAA,
+            1 => Shuffle::BBBB,
+            2 => Shuffle::CACA,
+            3 => Shuffle::DBBD,
+            4 => Shuffle::ADDA,
+            5 => Shuffle::CBCB,
+            6 => Shuffle::ABAB,
+            7 => Shuffle::BADC,
+            8 => Shuffle::BACD,
+            9 => Shuffle::ABDC,
+            _ => return None,
+        })
+    }
+
+    fn lanes_of(ctl: u8) -> Option<Lanes> {
+        Some(match ctl {
+            0 => Lanes::C,
+            1 => Lanes::D,
+            2 => Lanes::AB,
+            3 => Lanes::AC,
+            4 => Lanes::CD,
+            5 => Lanes::AD,
+            6 => Lanes::BC,
+            7 => Lanes::ABCD,
+            _ => return None,
+        })
+    }
+
+    macro_rules! vhook {
+        ($(#[$doc:meta])* $name:ident, $name_tf:ident, ($($arg:ident : $ty:ty),*), $body:expr) => {
+            #[target_feature(enable = "avx2")]
+            unsafe fn $name_tf($($arg: $ty),*) -> Lanes4 {
+                $body
+            }
+
+            $(#[$doc])*
+            pub fn $name($($arg: $ty),*) -> Option<Lanes4> {
+                if !available() {
+                    return None;
+                }
+                Some(unsafe { $name_tf($($arg),*) })
+            }
+        };
+    }
+
+    vhook!(
+        /// `FieldElement2625x4::new(a, b, c, d).split()`.
+        new_split, new_split_tf, (x: &Lanes4), store(&load(x))
+    );
+    vhook!(
+        /// `FieldElement2625x4::splat(a).split()`.
+        splat, splat_tf, (a: &[u64; 5]),
+        store(&FieldElement2625x4::splat(&FieldElement51::from_limbs(*a)))
+    );
+    vhook!(
+        /// `&x * &y`.
+        mul, mul_tf, (x: &Lanes4, y: &Lanes4), store(&(&load(x) * &load(y)))
+    );
+    vhook!(
+        /// `x.square_and_negate_D()`.
+        square_and_negate_d, square_and_negate_d_tf, (x: &Lanes4),
+        store(&load(x).square_and_negate_D())
+    );
+    vhook!(
+        /// `-x` (`Neg`, with reduction).
+        neg, neg_tf, (x: &Lanes4), store(&(-load(x)))
+    );
+    vhook!(
+        /// `x.negate_lazy()`.
+        negate_lazy, negate_lazy_tf, (x: &Lanes4), store(&load(x).negate_lazy())
+    );
+    vhook!(
+        /// `x.reduce()`.
+        reduce, reduce_tf, (x: &Lanes4), store(&load(x).reduce())
+    );
+    vhook!(
+        /// `x + y` (no reduction).
+        add, add_tf, (x: &Lanes4, y: &Lanes4), store(&(load(x) + load(y)))
+    );
+    vhook!(
+        /// `x + (-y)` (there is no `Sub` for this type).
+        add_neg, add_neg_tf, (x: &Lanes4, y: &Lanes4), store(&(load(x) + (-load(y))))
+    );
+    vhook!(
+        /// `x.diff_sum()`.
+        diff_sum, diff_sum_tf, (x: &Lanes4), store(&load(x).diff_sum())
+    );
+    vhook!(
+        /// `x * (k0, k1, k2, k3)`.
+        mul_consts, mul_consts_tf, (x: &Lanes4, k: (u32, u32, u32, u32)), store(&(load(x) * k))
+    );
+    vhook!(
+        /// `FieldElement2625x4::conditional_select(&x, &y, c)`.
+        conditional_select, conditional_select_tf, (x: &Lanes4, y: &Lanes4, c: Choice),
+        store(&FieldElement2625x4::conditional_select(&load(x), &load(y), c))
+    );
+    vhook!(
+        /// `x.conditional_assign(&y, c)`.
+        conditional_assign, conditional_assign_tf, (x: &Lanes4, y: &Lanes4, c: Choice),
+        {
+            let mut v = load(x);
+            v.conditional_assign(&load(y), c);
+            store(&v)
+        }
+    );
+
+    #[target_feature(enable = "avx2")]
+    unsafe fn shuffle_tf(x: &Lanes4, ctl: Shuffle) -> Lanes4 {
+        store(&load(x).shuffle(ctl))
+    }
+
+    /// `x.shuffle(ctl)`; `ctl` indexes
+    /// `AAAA,BBBB,CACA,DBBD,ADDA,CBCB,ABAB,BADC,BACD,ABDC`.
+    /// Outer `None`: no AVX2; inner `None`: bad control index.
+    pub fn shuffle(x: &Lanes4, ctl: u8) -> Option<Option<Lanes4>> {
+        if !available() {
+            return None;
+        }
+        Some(shuffle_of(ctl).map(|c| unsafe { shuffle_tf(x, c) }))
+    }
+
+    #[target_feature(enable = "avx2")]
+    unsafe fn blend_tf(x: &Lanes4, y: &Lanes4, ctl: Lanes) -> Lanes4 {
+        store(&load(x).blend(load(y), ctl))
+    }
+
+    /// `x.blend(y, lanes)`; `lanes` indexes `C,D,AB,AC,CD,AD,BC,ABCD`.
+    pub fn blend(x: &Lanes4, y: &Lanes4, ctl: u8) -> Option<Option<Lanes4>> {
+        if !available() {
+            return None;
+        }
+        Some(lanes_of(ctl).map(|c| unsafe { blend_tf(x, y, c) }))
+    }
+
+    #[target_feature(enable = "avx2")]
+    unsafe fn edwards_roundtrip_tf(p: &EdwardsPoint) -> EdwardsPoint {
+        backend::vector::avx2::ExtendedPoint::from(*p).into()
+    }
+
+    /// `EdwardsPoint -> avx2::ExtendedPoint -> EdwardsPoint`.
+    pub fn edwards_roundtrip(p: &EdwardsPoint) -> Option<EdwardsPoint> {
+        if !available() {
+            return None;
+        }
+        Some(unsafe { edwards_roundtrip_tf(p) })
+    }
+
+    #[target_feature(enable = "avx2")]
+    unsafe fn edwards_double_tf(p: &EdwardsPoint) -> EdwardsPoint {
+        backend::vector::avx2::ExtendedPoint::from(*p).double().into()
+    }
+
+    /// `avx2::ExtendedPoint::double`.
+    pub fn edwards_double(p: &EdwardsPoint) -> Option<EdwardsPoint> {
+        if !available() {
+            return None;
+        }
+        Some(unsafe { edwards_double_tf(p) })
+    }
+
+    #[target_feature(enable = "avx2")]
+    unsafe fn edwards_add_tf(p: &EdwardsPoint, q: &EdwardsPoint, sub: bool) -> EdwardsPoint {
+        use backend::vector::avx2::{CachedPoint, ExtendedPoint};
+        let p = ExtendedPoint::from(*p);
+        let q = CachedPoint::from(ExtendedPoint::from(*q));
+        if sub {
+            (&p - &q).into()
+        } else {
+            (&p + &q).into()
+        }
+    }
+
+    /// `&ExtendedPoint + &CachedPoint` (or `-` when `sub`).
+    pub fn edwards_add(p: &EdwardsPoint, q: &EdwardsPoint, sub: bool) -> Option<EdwardsPoint> {
+        if !available() {
+            return None;
+        }
+        Some(unsafe { edwards_add_tf(p, q, sub) })
+    }
+}
+
+// ------------------------------------------------------------------------
+// The AVX-512 IFMA copies
+// ------------------------------------------------------------------------
+
+#[cfg(all(curve25519_dalek_backend = "unstable_avx512", nightly))]
+pub mod ifma {
+    use super::*;
+    use backend::serial::u64::field::FieldElement51;
+    use backend::vector::ifma::field::{F51x4Reduced, F51x4Unreduced, Lanes, Shuffle};
+    use backend::vector::scalar_mul;
+
+    /// Run-time check (same cpufeatures test as `backend::get_selected_backend`).
+    pub fn available() -> bool {
+        cpufeatures::new!(verif_cpuid_avx512, "avx512ifma", "avx512vl");
+        verif_cpuid_avx512::init().get()
+    }
+
+    impl_vector_scalar_mul_hooks!(spec_avx512ifma_avx512vl, "avx512ifma,avx512vl");
+
+    #[inline(always)]
+    unsafe fn load(l: &Lanes4) -> F51x4Unreduced {
+        F51x4Unreduced::new(
+            &FieldElement51::from_limbs(l[0]),
+            &FieldElement51::from_limbs(l[1]),
+            &FieldElement51::from_limbs(l[2]),
+            &FieldElement51::from_limbs(l[3]),
+        )
+    }
+
+    #[inline(always)]
+    unsafe fn load_reduced(l: &Lanes4) -> F51x4Reduced {
+        F51x4Reduced::from(load(l))
+    }
+
+    #[inline(always)]
+    unsafe fn store(v: &F51x4Unreduced) -> Lanes4 {
+        let s = v.split();
+        [s[0].0, s[1].0, s[2].0, s[3].0]
+    }
+
+    fn shuffle_of(ctl: u8) -> Option<Shuffle> {
+        Some(match ctl {
+            0 => Shuffle::AAAA,
+            1 => Shuffle::BBBB,
+            2 => Shuffle::CACA,
+            3 => Shuffle::DBBD,
+            4 => Shuffle::ADDA,
+            5 => Shuffle::CBCB,
+            6 => Shuffle::ABAB,
+            7 => Shuffle::BADC,
+            8 => Shuffle::BACD,
+            9 => Shuffle::ABDC,
+            _ => return None,
+        })
+    }
+
+    // Same numbering as the avx2 `Lanes`; the ifma enum has no CD, BC, ABCD
+    // (-> None) and has an extra BCD (index 8).
+    fn lanes_of(ctl: u8) -> Option<Lanes> {
+        Some(match ctl {
+            0 => Lanes::C,
+            1 => Lanes::D,
+            2 => Lanes::AB,
+            3 => Lanes::AC,
+            5 => Lanes::AD,
+            8 => Lanes::BCD,
+            _ => return None,
+        })
+    }
+
+    macro_rules! vhook {
+        ($(#[$doc:meta])* $name:ident, $name_tf:ident, ($($arg:ident : $ty:ty),*), $body:expr) => {
+            #[target_feature(enable = "avx512ifma,avx512vl")]
+            unsafe fn $name_tf($($arg: $ty),*) -> Lanes4 {
+                $body
+            }
+
+            $(#[$doc])*
+            pub fn $name($($arg: $ty),*) -> Option<Lanes4> {
+                if !available() {
+                    return None;
+                }
+                Some(unsafe { $name_tf($($arg),*) })
+            }
+        };
+    }
+
+    vhook!(
+        /// `F51x4Unreduced::new(a, b, c, d).split()`.
+        new_split, new_split_tf, (x: &Lanes4), store(&load(x))
+    );
+    vhook!(
+        /// `&F51x4Reduced * &F51x4Reduced`.
+        mul, mul_tf, (x: &Lanes4, y: &Lanes4), store(&(&load_reduced(x) * &load_reduced(y)))
+    );
+    vhook!(
+        /// `F51x4Reduced::square`.
+        square, square_tf, (x: &Lanes4), store(&load_reduced(x).square())
+    );
+    vhook!(
+        /// `-F51x4Reduced` (`Neg`).
+        neg, neg_tf, (x: &Lanes4), store(&F51x4Unreduced::from(-load_reduced(x)))
+    );
+    vhook!(
+        /// `F51x4Unreduced::negate_lazy`.
+        negate_lazy, negate_lazy_tf, (x: &Lanes4), store(&load(x).negate_lazy())
+    );
+    vhook!(
+        /// `F51x4Reduced::from(F51x4Unreduced)` (the reduction), converted back.
+        reduce, reduce_tf, (x: &Lanes4), store(&F51x4Unreduced::from(load_reduced(x)))
+    );
+    vhook!(
+        /// `F51x4Unreduced + F51x4Unreduced`.
+        add, add_tf, (x: &Lanes4, y: &Lanes4), store(&(load(x) + load(y)))
+    );
+    vhook!(
+        /// `x + F51x4Unreduced::from(-F51x4Reduced::from(y))`.
+        add_neg, add_neg_tf, (x: &Lanes4, y: &Lanes4),
+        store(&(load(x) + F51x4Unreduced::from(-load_reduced(y))))
+    );
+    vhook!(
+        /// `F51x4Unreduced::diff_sum`.
+        diff_sum, diff_sum_tf, (x: &Lanes4), store(&load(x).diff_sum())
+    );
+    vhook!(
+        /// `&F51x4Reduced * (k0, k1, k2, k3)`.
+        mul_consts, mul_consts_tf, (x: &Lanes4, k: (u32, u32, u32, u32)),
+        store(&(&load_reduced(x) * k))
+    );
+    vhook!(
+        /// `F51x4Reduced::conditional_select(&x, &y, c)`.
+        conditional_select, conditional_select_tf, (x: &Lanes4, y: &Lanes4, c: Choice),
+        store(&F51x4Unreduced::from(F51x4Reduced::conditional_select(
+            &load_reduced(x),
+            &load_reduced(y),
+            c
+        )))
+    );
+    vhook!(
+        /// `x.conditional_assign(&y, c)` on `F51x4Reduced`.
+        conditional_assign, conditional_assign_tf, (x: &Lanes4, y: &Lanes4, c: Choice),
+        {
+            let mut v = load_reduced(x);
+            v.conditional_assign(&load_reduced(y), c);
+            store(&F51x4Unreduced::from(v))
+        }
+    );
+
+    #[target_feature(enable = "avx512ifma,avx512vl")]
+    unsafe fn shuffle_tf(x: &Lanes4, ctl: Shuffle) -> Lanes4 {
+        store(&load(x).shuffle(ctl))
+    }
+
+    /// `F51x4Unreduced::shuffle`; same control numbering as `avx2::shuffle`.
+    pub fn shuffle(x: &Lanes4, ctl: u8) -> Option<Option<Lanes4>> {
+        if !available() {
+            return None;
+        }
+        Some(shuffle_of(ctl).map(|c| unsafe { shuffle_tf(x, c) }))
+    }
+
+    #[target_feature(enable = "avx512ifma,avx512vl")]
+    unsafe fn shuffle_reduced_tf(x: &Lanes4, ctl: Shuffle) -> Lanes4 {
+        store(&F51x4Unreduced::from(load_reduced(x).shuffle(ctl)))
+    }
+
+    /// `F51x4Reduced::shuffle`.
+    pub fn shuffle_reduced(x: &Lanes4, ctl: u8) -> Option<Option<Lanes4>> {
+        if !available() {
+            return None;
+        }
+        Some(shuffle_of(ctl).map(|c| unsafe { shuffle_reduced_tf(x, c) }))
+    }
+
+    #[target_feature(enable = "avx512ifma,avx512vl")]
+    unsafe fn blend_tf(x: &Lanes4, y: &Lanes4, ctl: Lanes) -> Lanes4 {
+        store(&load(x).blend(&load(y), ctl))
+    }
+
+    /// `F51x4Unreduced::blend`; numbering `C,D,AB,AC,-,AD,-,-,BCD`
+    /// (inner `None` for lane sets this enum does not have).
+    pub fn blend(x: &Lanes4, y: &Lanes4, ctl: u8) -> Option<Option<Lanes4>> {
+        if !available() {
+            return None;
+        }
+        Some(lanes_of(ctl).map(|c| unsafe { blend_tf(x, y, c) }))
+    }
+
+    #[target_feature(enable = "avx512ifma,avx512vl")]
+    unsafe fn blend_reduced_tf(x: &Lanes4, y: &Lanes4, ctl: Lanes) -> Lanes4 {
+        store(&F51x4Unreduced::from(
+            load_reduced(x).blend(&load_reduced(y), ctl),
+        ))
+    }
+
+    /// `F51x4Reduced::blend`.
+    pub fn blend_reduced(x: &Lanes4, y: &Lanes4, ctl: u8) -> Option<Option<Lanes4>> {
+        if !available() {
+            return None;
+        }
+        Some(lanes_of(ctl).map(|c| unsafe { blend_reduced_tf(x, y, c) }))
+    }
+
+    #[target_feature(enable = "avx512ifma,avx512vl")]
+    unsafe fn edwards_roundtrip_tf(p: &EdwardsPoint) -> EdwardsPoint {
+        backend::vector::ifma::ExtendedPoint::from(*p).into()
+    }
+
+    /// `EdwardsPoint -> ifma::ExtendedPoint -> EdwardsPoint`.
+    pub fn edwards_roundtrip(p: &EdwardsPoint) -> Option<EdwardsPoint> {
+        if !available() {
+            return None;
+        }
+        Some(unsafe { edwards_roundtrip_tf(p) })
+    }
+
+    #[target_feature(enable = "avx512ifma,avx512vl")]
+    unsafe fn edwards_double_tf(p: &EdwardsPoint) -> EdwardsPoint {
+        backend::vector::ifma::ExtendedPoint::from(*p).double().into()
+    }
+
+    /// `ifma::ExtendedPoint::double`.
+    pub fn edwards_double(p: &EdwardsPoint) -> Option<EdwardsPoint> {
+        if !available() {
+            return None;
+        }
+        Some(unsafe { edwards_double_tf(p) })
+    }
+
+    #[target_feature(enable = "avx512ifma,avx512vl")]
+    unsafe fn edwards_add_tf(p: &EdwardsPoint, q: &EdwardsPoint, sub: bool) -> EdwardsPoint {
+        use backend::vector::ifma::{CachedPoint, ExtendedPoint};
+        let p = ExtendedPoint::from(*p);
+        let q = CachedPoint::from(ExtendedPoint::from(*q));
+        if sub {
+            (&p - &q).into()
+        } else {
+            (&p + &q).into()
+        }
+    }
+
+    /// `&ExtendedPoint + &CachedPoint` (or `-` when `sub`).
+    pub fn edwards_add(p: &EdwardsPoint, q: &EdwardsPoint, sub: bool) -> Option<EdwardsPoint> {
+        if !available() {
+            return None;
+        }
+        Some(unsafe { edwards_add_tf(p, q, sub) })
+    }
+}
